@@ -59,7 +59,7 @@
 (*      at the pinned commit (it never looks at the victim's contribution: *)
 (*      MC_asfound.cfg shows the resulting violation of (Us)).             *)
 (***************************************************************************)
-EXTENDS Integers, Sequences, FiniteSets, FiniteSetsExt, TLC
+EXTENDS Integers, Sequences, FiniteSets, FiniteSetsExt, TLC, IOUtils
 
 CONSTANT SkipUseless
 
@@ -141,6 +141,9 @@ Eligible(C, t, p) ==
                     a.prio <= C.tasks[t].thr /\ Enabled(a) /\ PolicyAllowed(a, C.tasks[t].feature)
 
 (***************************** property level ******************************)
+\* second validation pass of segments that were rejected for the recorded finding "victims that free nothing of what is
+\* short" (known_findings.json): the clause is switched off so that the REST of such a segment is judged too
+TolerateUs == "VERIF_TOLERATE_C11_US" \in DOMAIN IOEnv
 El(C, t, p)        == Eligible(C, t, p)
 Tw(C, V, p)        == p \notin V /\ ~C.pods[p].already
 St(C, V, t)        == ~Covered(C, t, V)
@@ -152,7 +155,7 @@ Or(C, V, Tr, t, p) == \A x \in Rng(List(C, t)) :
 \* Evict(p) issued on behalf of task t, with victims V and tried pods Tr so far
 EvictAllowed(C, V, Tr, p, t) ==
   IF t \notin TaskIds(C) \/ p \notin DOMAIN C.pods THEN FALSE
-  ELSE El(C, t, p) /\ Tw(C, V, p) /\ St(C, V, t) /\ Us(C, V, t, p) /\ Or(C, V, Tr, t, p)
+  ELSE El(C, t, p) /\ Tw(C, V, p) /\ St(C, V, t) /\ (Us(C, V, t, p) \/ TolerateUs) /\ Or(C, V, Tr, t, p)
 
 \* the same, clause by clause (explain mode / diagnostics)
 Clauses(C, V, Tr, p, t) ==
